@@ -11,7 +11,7 @@ def run_job(args):
     base, k, cases = args
     d = os.path.join(base, "w%d" % k); os.makedirs(d)
     jf = os.path.join(d, "job.json"); json.dump({"dir": os.path.join(d, "files"), "cases": cases}, open(jf, "w"))
-    p = subprocess.run(["/venv/bin/python", "-W", "ignore", WORKER, jf], env=dict(os.environ, PYTHONPATH="/repo:" + common.VERIF, PYTHONDONTWRITEBYTECODE="1"), capture_output=True, text=True, timeout=3000)
+    p = subprocess.run(["/venv/bin/python", "-W", "ignore", WORKER, jf], env=dict(os.environ, PYTHONPATH=os.environ.get("VERIF_REPO", "/repo") + ":" + common.VERIF, PYTHONDONTWRITEBYTECODE="1"), capture_output=True, text=True, timeout=3000)
     if not os.path.exists(jf + ".out"): raise RuntimeError("persist worker failed: " + p.stderr[-500:])
     r = json.load(open(jf + ".out")); shutil.rmtree(d, ignore_errors=True)
     return r
